@@ -11,7 +11,11 @@ from pyvc.se import R, B, I, Unsupported
 from specs.vcomposer import extra_pre          # Bundle.lower_index is an int (documented type)
 
 FILES = {'ComposeEdif': 'spydrnet/composers/edif/composer.py'}
-FUNCTIONS = [('ComposeEdif', '_get_wire_index_', 'method', [('cable', 'is:Cable'), ('wire', 'is:Wire')])]
+FUNCTIONS = [('ComposeEdif', '_get_wire_index_', 'method', [('cable', 'is:Cable'), ('wire', 'is:Wire')]),
+             # the tests by which the writer chooses between the (array ...) / (member ...) spelling and the plain one (composer.py: port.is_array,
+             # cable.is_array, port_ref.is_array): inherited from Bundle, resolved through the overriding _items() of Port / Cable
+             ('Port', 'is_scalar', 'getter', []), ('Port', 'is_array', 'getter', []),
+             ('Cable', 'is_scalar', 'getter', []), ('Cable', 'is_array', 'getter', [])]
 POSITIONAL = {('ComposeEdif', '_get_wire_index_', 'method')}
 
 
@@ -47,4 +51,31 @@ def post(ctx, spec, h0, s, ekind, args, val):
     return out
 
 
-POSTS = {'ComposeEdif._get_wire_index_': post}
+def post_arrayness(want_array):
+    """is_scalar: False for a bundle of more than one bit, otherwise the stored flag; is_array: its negation"""
+    def f(ctx, spec, h0, s, ekind, args, val):
+        c = ctx; h = s.heap; b = args[0][1]
+        if ekind != 'normal':
+            return [('C03', 'does-not-raise', BoolVal(False))]
+        out = [('C03', 'netlist-untouched', And([h[f_] == h0[f_] for f_ in h0 if f_ in h and not (h[f_] is h0[f_])] or [BoolVal(True)]))]
+        # the receiver is a Port or a Cable (the function is inherited from Bundle and reads the bits through the overriding _items())
+        many = If(c.isa(b, 'Port'), c.len(h0['_pins'][b]) > 1, c.len(h0['_wires'][b]) > 1)
+        flag = h0['_is_scalar'][b]
+        if val is not None and val[0] == 'bool':
+            scalar_true = And(Not(many), flag == c.pyTrue)
+            scalar_false = Or(many, flag == c.pyFalse)
+            # stated only where the stored flag is a bool (T: the setters and constructors store nothing else)
+            out.append(('C03', 'array-iff-several-bits-or-flag-says-so' if want_array else 'scalar-iff-one-bit-at-most-and-flag-says-so',
+                        Implies(Or(flag == c.pyTrue, flag == c.pyFalse), val[1] == (scalar_false if want_array else scalar_true))))
+            return out
+        if val is not None and val[0] == 'ref':
+            if want_array:
+                return out + [('C03', 'returns-a-bool', BoolVal(False))]
+            out.append(('C03', 'scalar-iff-one-bit-at-most-and-flag-says-so', val[1] == If(many, c.pyFalse, flag)))
+            return out
+        return out + [('C03', 'returns-a-bool', BoolVal(False))]
+    return f
+
+
+POSTS = {'ComposeEdif._get_wire_index_': post,
+         'Bundle.is_scalar': post_arrayness(False), 'Bundle.is_array': post_arrayness(True)}
